@@ -1142,6 +1142,38 @@ def flw11(ctx):
     return r
 
 
+def _consumes_all_helper(lib, cond, cm_path):
+    """the condition is (the `?` of) a call of a local helper that returns true only after a
+    `while *state_index < states.len() { if !context_match(..)? { return Ok(false) } *state_index += 1 }` loop"""
+    c = hirq.strip(cond)
+    while c.get("e") == "match" and str(c.get("src", "")).startswith("TryDesugar"):
+        sc = hirq.strip(c["scrut"])
+        c = hirq.strip(sc["args"][0]) if sc.get("e") == "call" and sc.get("args") else sc
+    if c.get("e") != "mcall":
+        return False
+    hb = lib.body(c.get("def") or "")
+    if hb is None or not hb.hir or "state_index" not in hb.param_names:
+        return False
+    root = hb.hir["body"]
+    items = [hirq.strip(x) for x in root.get("stmts", [])] + ([hirq.strip(root["tail"])] if root.get("tail") is not None else [])
+    if len(items) < 2:
+        return False
+    tail, prev = items[-1], items[-2]
+    t_ok = tail.get("e") == "call" and (hirq.strip(tail["f"]).get("path") or "").endswith("Result::Ok") and hirq.strip(tail["args"][0]).get("lit") is True
+    if not t_ok or prev.get("e") != "loop":
+        return False
+    pin = hirq.strip(prev["body"])
+    driven = pin.get("e") == "if" and any(m["e"] == "path" and m.get("local") == "state_index" for m in hirq.walk(pin["cond"])) and any(
+        m["e"] == "mcall" and m["name"] == "len" for m in hirq.walk(pin["cond"]))
+    calls = any(m["e"] == "mcall" and (m.get("def") or "") == cm_path for m in hirq.walk(prev))
+    # inside the loop a failed element leaves with `return Ok(false)` (never with a success)
+    rets = [m for m in hirq.walk(prev) if m["e"] == "ret" and m.get("a") is not None and not m.get("exp")]
+    fails = all(hirq.strip(hirq.strip(m["a"])["args"][0]).get("lit") is False for m in rets
+                if hirq.strip(m["a"]).get("e") == "call" and (hirq.strip(hirq.strip(m["a"])["f"]).get("path") or "").endswith("Result::Ok"))
+    others = [m for m in hirq.walk(root) if m["e"] == "ret" and not any(m is y for y in hirq.walk(prev)) and not m.get("exp")]
+    return driven and calls and bool(rets) and fails and not others
+
+
 def flw12(ctx):
     """context side of the state-index discipline"""
     r = RuleResult("FLW-12", "context matching: a matched context element advances the state by exactly one (context_match itself by none, the loop around it by one per element)", floor=21)
@@ -1258,6 +1290,8 @@ def flw12(ctx):
                         why = "the loop before it is not driven by `state_index < states.len()` or does not clear `%s` on a failed element" % flag
                     else:
                         why = "no loop over the remaining states precedes it"
+                elif _consumes_all_helper(lib, c, cm.path):
+                    ok = True
                 else:
                     why = "its condition is neither `state_index >= states.len()` nor the all-matched flag of the loop over the remaining states"
             r.inst("%s: success return #%d follows the consumption of all remaining context states" % (fname, k), fn_loc(fb, node["ln"]), "ok" if ok else "report")
